@@ -850,6 +850,24 @@ impl Session {
                     }
                 }
             }
+            "reconnect" => {
+                // a client joins the same host again with fresh renet objects (what an application does
+                // after a lost connection); entities of the earlier session are still in its world
+                use bevy_renet::renet::transport::ClientAuthentication;
+                use bevy_renet::renet::ConnectionConfig;
+                std::thread::sleep(std::time::Duration::from_millis(3));
+                let socket = UdpSocket::bind(SocketAddr::new(self.ip, 0)).unwrap();
+                let now = std::time::SystemTime::now().duration_since(std::time::SystemTime::UNIX_EPOCH).unwrap();
+                let client_id = now.as_millis() as u64;
+                let auth = ClientAuthentication::Unsecure { client_id, server_addr: SocketAddr::new(self.ip, self.port), protocol_id: 1, user_data: None };
+                let world = self.peers[p].app.world_mut();
+                world.insert_resource(RenetClient::new(ConnectionConfig::default()));
+                world.insert_resource(NetcodeClientTransport::new(now, auth, socket).unwrap());
+                if let Some(old) = self.peers[p].client_id {
+                    self.peers[p].old_client_ids.push(old);
+                }
+                self.peers[p].client_id = Some(client_id);
+            }
             "removetransports" => {
                 let world = self.peers[p].app.world_mut();
                 world.remove_resource::<NetcodeServerTransport>();
@@ -1179,6 +1197,12 @@ impl Session {
                 has_cli && ((connecting && !st_connected) || (st_connected && fin == 0 && w.get_resource::<RenetClient>().map(|c| c.is_connected()).unwrap_or(false)))
             });
             // bytes handed to renet and not yet acknowledged (large messages need wall-clock time)
+            let current_ids: Vec<u64> = self
+                .peers
+                .iter()
+                .filter(|p| p.app.world().contains_resource::<NetcodeClientTransport>())
+                .filter_map(|p| p.client_id)
+                .collect();
             let pending_net = self.peers.iter().any(|p| {
                 if p.panicked || !p.is_setup {
                     return false;
@@ -1189,7 +1213,13 @@ impl Session {
                     && w.get_resource::<RenetClient>().map(|c| c.is_connected() && c.channel_available_memory(bevy_renet::renet::DefaultChannel::ReliableOrdered) < FULL).unwrap_or(false);
                 let srv = w.contains_resource::<NetcodeServerTransport>()
                     && w.get_resource::<RenetServer>()
-                        .map(|s| s.clients_id().iter().any(|c| s.channel_available_memory(*c, bevy_renet::renet::DefaultChannel::ReliableOrdered) < FULL))
+                        .map(|s| {
+                            s.clients_id()
+                                .iter()
+                                // connections of peers that left (until renet times them out) never acknowledge
+                                .filter(|c| current_ids.contains(&c.raw()))
+                                .any(|c| s.channel_available_memory(*c, bevy_renet::renet::DefaultChannel::ReliableOrdered) < FULL)
+                        })
                         .unwrap_or(false);
                 cli || srv
             });
